@@ -30,3 +30,12 @@ PROPS["C18"] = dict(
     assumptions=["float64 exact on D incl. the shoelace bound n*2^(2b+2) < 2^53"],
     partial=[],
 )
+
+PROPS["C01"] = dict(
+    streams=["C01"],
+    kernel_cases=300,
+    rule="exhaustive: all vertex sequences of length 3 (and 1/16 sample of length 4; thorough: all of length 4 and a sample of length 5) on {0..3}^2 against all 49 lattice and half-lattice points; random rings (raw sequences, star polygons with 0-3 holes, long rings of 64-464 (thorough up to 5000) vertices, small-lattice rings with repeats) with probe points biased to vertices/edge midpoints/vertex levels, under index configurations {none, rtree/1, quadtree/1, rtree/64, quadtree/64}; rectangles and lines likewise; each case reports 17 (polygon) or 9 (rect, line) implementation answers: geometry level and object level (Point, SimplePoint, Feature wrappers), all compared with the one model answer; ring-level (hit, edge index) through the verif hook without index. non-trivial: all (every case reaches the membership code); distinct = distinct case lines",
+    trusted_base=COMMON_TB + ["index independence at this level rests on C04 (search reports exactly the intersecting segments) + theorem C01_order_independent; the correspondence runs all three index kinds"],
+    assumptions=["float64 exact on D"],
+    partial=[],
+)
